@@ -916,11 +916,11 @@ def plan(ctx, tier, rng, extra_search=False):
                       ("clusters", 20, 3, {"nm": "vptree", "em": "dense"}),
                       ("clusters", 18, 2, {"nm": "covertree", "em": "dense", "reduced": 1}),
                       ("generic", 21, 33, {"nm": "brute", "em": "dense"}),
-                      ("dyadic", 16, 17, {"nm": "covertree", "em": "dense", "speg": 0}),
+                      ("dyadic", 16, 17, {"nm": "covertree", "em": "dense", "speg": 0, "reduced": 1}),
                       ("lattice", 20, 20, {"nm": "vptree", "em": "dense", "d": 3}),
                       ("generic", 15, 64, {"nm": "covertree", "em": "randomized", "d": 1, "reduced": 1}),
                       ("offset", 20, 4, {"nm": "vptree", "em": "dense"}),
-                      ("dups", 22, 2, {"nm": "covertree", "em": "dense", "speg": 0, "perm": 1}),
+                      ("dups", 22, 2, {"nm": "covertree", "em": "dense", "speg": 0, "perm": 1, "reduced": 1}),
                       ("dups", 16, 20, {"nm": "vptree", "em": "dense", "reduced": 1}),
                       ("generic", 100, 3, {"reduced": 1, "min": 1, "perm": 1}),
                       ("huge", 18, 4, {"nm": "vptree", "em": "dense", "reduced": 1, "maxit": 12, "perm": 1}),
